@@ -124,6 +124,14 @@ def c39(lib, seed, per_combo):
                 if (o["rc"] == -1) != exp_fail:
                     viol.append({"key": "policy:%s:%s" % (pname, "outside" if outside else "inside"),
                                  "case": {"hyp": b.hyp, "bv": bvv, "rc": o["rc"], "msg": o["msg"]}})
+                # the policy applies to every kind of request (prediction-only ones and the +100 flag included)
+                for K0 in (-3.0, -2.0, -1.0, 0.0, 1.0, 97.0, 98.0, 99.0, 100.0, 104.0):
+                    n += 1
+                    o3 = b.integrate(K0, 1.0, g0, g1, thf0, [YOUNG, NU], isv0, esv(bv=bvv), esv(bv=bvv), rho=RHO)
+                    if (o3["rc"] == -1) != exp_fail:
+                        kind = "prediction" if (K0 if K0 < 50 else K0 - 100) < -0.25 else "integration"
+                        viol.append({"key": "policy:%s:%s:%s-request" % (pname, "outside" if outside else "inside", kind),
+                                     "case": {"hyp": b.hyp, "bv": bvv, "K0": K0, "rc": o3["rc"], "msg": o3["msg"]}})
                 if not exp_fail and o["rc"] != -1:
                     set_policy(b, 0)
                     o2 = b.integrate(4, 1.0, g0, g1, thf0, [YOUNG, NU], isv0, esv(bv=0.5), esv(bv=0.5), rho=RHO)
